@@ -76,7 +76,7 @@ def stage_a(ctx, procs):
 
 
 def stage_b(ctx, procs):
-    names, items = c11.enum_run(ctx, 'checks', ctx.pick(37, 2), procs, tag='b')
+    names, items = c11.enum_run(ctx, 'checks', ctx.pick(53, 2), procs, tag='b', fs=4)
     idx = [i for i, n in enumerate(names) if n]           # the empty name: see stage C
     bad, nrej, nyes = [], 0, 0
     for it in items:
@@ -219,7 +219,8 @@ def stage_c(ctx, procs):
     L = ctx.pick(3, 4)
     Lall = 2
     nsample = ctx.pick(300, 5000)
-    gen = K.Gen(ctx.rng, signing=0.85, p_forward=0.2, p_redef=0.3, p_twin=0.6, force_twin=0.6, carried=0.5, dual=0.6)
+    gen = K.Gen(ctx.rng, signing=0.85, p_forward=0.2, p_redef=0.3, p_twin=0.6, force_twin=0.6, carried=0.5, dual=0.6,
+                foreign=0.25, flat=0.6)
     recs, rejected, sid, nyes = [], 0, 0, 0
     while len(recs) < n and sid < 4 * n:
         sid += 1
